@@ -597,6 +597,16 @@ func main() {
 		bk := makeBlock(cfg.Seed, 0)
 		o := observe(func() (*wire.MsgMerkleBlock, []uint32) { return merkleblock.NewMerkleBlockWithTxnSet(bk.b, nil) })
 		rep.Extra["empty_block"] = map[string]interface{}{"panic": o.Panic, "transactions": o.Count, "hashes": len(o.Hashes), "flag_bytes": len(o.Flags)}
+		o2 := observe(func() (*wire.MsgMerkleBlock, []uint32) { return bloom.NewMerkleBlock(bk.b, bloom.NewFilter(1, 0, 0.01, wire.BloomUpdateNone)) })
+		for how, x := range map[string]built{"NewMerkleBlockWithTxnSet": o, "bloom.NewMerkleBlock": o2} {
+			if x.Panic != "" {
+				// outside the quantifier of C11 (n >= 1) but the models mirror the guard of commit 89c7599, so say it concretely
+				rep.Violate("C11:panic:empty_block", "the builder panics on a block without transactions (the models return the empty message)",
+					map[string]interface{}{"block_seed": bk.seed, "n": 0, "builder": how, "chosen": "", "panic": x.Panic})
+			} else if x.Count != 0 || len(x.Hashes) != 0 || len(x.Flags) != 0 || len(x.Indices) != 0 {
+				rep.Violate("C11:empty_block", "the message for a block without transactions is not empty", replayOf(bk, how, nil, x))
+			}
+		}
 		if o.Panic == "" && corr {
 			addBuildSet(bk, nil, nil, o)
 		}
